@@ -2,3 +2,10 @@
 
 class PkgTop:
     """A class of the PACKAGE zpkg: next to zpkg.zutil.B one signature holds a module and its own submodule."""
+
+
+class zfoo:
+    """A class named like ANOTHER top-level module (zfoo), with a class inside it: zpkg.zfoo.K."""
+
+    class K:
+        pass
